@@ -42,6 +42,10 @@ Check(it) ==
             V == ViolR(F, R)
             l1 == UNION {Detail(cl, V, R) : cl \in {cl \in Clauses : ~Holds(cl, V, R, o)}}
                   \cup (IF IncludedTextVerbatim(V, R, it.txt, o) THEN {} ELSE {"IncludedTextVerbatim"})
+                  \* a file whose ONLY blemish is the rule that pins a defect of the loader (a supplied parameter that the file uses,
+                  \* but only inside a part collected with single quotes or inside an imported macro file): the file is valid and
+                  \* must load; that the loader reports the parameter as unused is known finding F14
+                  \cup (IF V = {"paramOnlyInUnscanned"} /\ ~o.ok THEN {"ValidLoads:unscannedParam"} ELSE {})
             c == CodeR(F, R, it.sel)
             l2 == /\ o.ok = c.ok
                   /\ o.kind = c.kind
